@@ -29,7 +29,7 @@ m = {
         "guard": "verif",
         "enable": "go build -tags verif (harness/go.mod replaces github.com/flosch/pongo2/v6 with /repo)",
         "baseline_off_cmd": "cd /repo && go test -vet=off -count=1 ./...",
-        "source_commits": ["76f9614"],
+        "source_commits": ["76f9614", "2fc9ede"],
         "add_only": True,
     },
     "engines": [
